@@ -233,11 +233,22 @@ theorem frame_list_step (W : World) (f : Nat) (ih : FrameAt W f) :
             · split at h
               · obtain ⟨ps, h1, hk⟩ := bindE_ok h
                 split at hk
+                · exact hf2.trans (ih.list _ _ _ _ _ hs2 hk)
                 · obtain ⟨res, st1, h2, hk2⟩ := bindR_ok hk
                   obtain ⟨o, ho, _⟩ := prepend_ok hk2
                   have f1 := ih.asElem _ _ _ _ _ _ _ hs2 h2
                   exact hf2.trans (f1.trans (ih.list _ _ _ _ _ (f1.1.nonempty hs2) ho))
-                · exact hf2.trans (ih.list _ _ _ _ _ hs2 hk)
+                · split at hk
+                  · split at hk
+                    · exact hf2.trans (ih.list _ _ _ _ _ hs2 hk)
+                    · rename_i st3 hg
+                      have fg := onceGate_frame hg
+                      obtain ⟨res, st1, h2, hk2⟩ := bindR_ok hk
+                      obtain ⟨o, ho, _⟩ := prepend_ok hk2
+                      have hs3 := fg.1.nonempty hs2
+                      have f1 := ih.asElem _ _ _ _ _ _ _ hs3 h2
+                      exact hf2.trans (fg.trans (f1.trans (ih.list _ _ _ _ _ (f1.1.nonempty hs3) ho)))
+                  · exact hf2.trans (ih.list _ _ _ _ _ hs2 hk)
               · split at h
                 · exact hf2.trans (ih.list _ _ _ _ _ hs2 h)
                 · split at h
@@ -291,10 +302,14 @@ theorem frame_vfor_step (W : World) (f : Nat) (ih : FrameAt W f) :
     · simp only [Res.ok.injEq, Prod.mk.injEq] at hk; rw [← hk.2]; exact f1
     · split at hk
       · split at hk
-        · obtain ⟨res, st2, h2, hk2⟩ := bindR_ok hk
-          simp only [Res.ok.injEq, Prod.mk.injEq] at hk2
-          rw [← hk2.2]
-          exact f1.trans (ih.asElem _ _ _ _ _ _ _ (f1.1.nonempty hs) h2)
+        · split at hk
+          · simp only [Res.ok.injEq, Prod.mk.injEq] at hk; rw [← hk.2]; exact f1
+          · rename_i st3 hg
+            have fg := onceGate_frame hg
+            obtain ⟨res, st2, h2, hk2⟩ := bindR_ok hk
+            simp only [Res.ok.injEq, Prod.mk.injEq] at hk2
+            rw [← hk2.2]
+            exact f1.trans (fg.trans (ih.asElem _ _ _ _ _ _ _ (fg.1.nonempty (f1.1.nonempty hs)) h2))
         · simp only [Res.ok.injEq, Prod.mk.injEq] at hk; rw [← hk.2]; exact f1
       · simp only [Res.ok.injEq, Prod.mk.injEq] at hk; rw [← hk.2]; exact f1
 
